@@ -9,7 +9,7 @@ import re
 
 from .. import templates as T
 from ..mir import call_matches, callee_name, op_local, op_const_int
-from ..flow import arg_place, ok_return_blocks
+from ..flow import arg_place, ok_return_blocks, expr
 from ..src import walk
 
 CLAIM = {
@@ -754,6 +754,28 @@ def run(ctx):
     for d in draws:
         if not any(hcfg.dominates(r, d) for r in removes):
             ctx.violation("TRANSMIT-ONCE", HANDLE, "redraw-without-remove", "handle re-draws an image without first removing its id from the cache: draw would skip the transmission")
+    # every error response invalidates the cached id, with or without a placement: the `error.is_some()` edge must lead to the removal on all paths
+    err_tests = []
+    for bb, t in hb.calls():
+        if call_matches(t, r"Option::<T>::is_some$") and re.search(r"KittyImage\.error$|\.error$", expr(hb, t["args"][0])):
+            sw = hb.blocks[t["t"]]["term"]
+            if sw["k"] == "switch" and sw["vals"] == ["0"]:
+                err_tests.append((t["t"], sw["otherwise"]))
+    if not err_tests:
+        # `if let Some(..) = error` / match forms: a discriminant switch over the error field
+        for x, blk in enumerate(hb.blocks):
+            sw = blk["term"]
+            if sw["k"] == "switch" and re.fullmatch(r"discr\(.*\.error\)", expr(hb, sw["d"])):
+                yes = [tg for v, tg in zip(sw["vals"], sw["targets"]) if v == "1"] or ([sw["otherwise"]] if sw["vals"] == ["0"] else [])
+                err_tests += [(x, y) for y in yes]
+    if not err_tests:
+        ctx.anchor("TRANSMIT-ONCE", "handle/error-test", "cannot find the test of the response's error field in handle()")
+    for x, y in err_tests:
+        ok, wit = hcfg.must_pass(removes, start=y, exits=hcfg.returns) if removes else (False, None)
+        ctx.instance("TRANSMIT-ONCE", {"error_edge": "bb%d->bb%d" % (x, y), "cache_removed_on_every_path": ok})
+        if not ok:
+            ctx.violation("TRANSMIT-ONCE", HANDLE, "error-without-remove", "an error response can be handled without removing the image id from the cache (path %s): "
+                          "a failed transmission (error without placement) leaves the id cached and later draws only place an image the terminal never received" % wit)
 
     # ---------------- (e) payload ----------------------------------------------------------------
     lets = {}
